@@ -104,12 +104,16 @@ func newIndexFileHandle(idx Index, s Store) *indexFileHandle {
 
 // read from a blob file in a FUSE mount.
 func (f *indexFileHandle) read(dest []byte, off int64) (fuse.ReadResult, syscall.Errno) {
+	verifMountHandle("want", off, len(dest))
 	f.mu.Lock()
 	defer f.mu.Unlock()
+	defer verifMountHandle("unlock", off, len(dest))
+	verifMountHandle("seek", off, len(dest))
 	if _, err := f.r.Seek(off, io.SeekStart); err != nil {
 		fmt.Fprintln(os.Stderr, err)
 		return nil, syscall.EIO
 	}
+	verifMountHandle("read", off, len(dest))
 	n, err := f.r.Read(dest)
 	if err != nil && err != io.EOF {
 		fmt.Fprintln(os.Stderr, err)
